@@ -67,7 +67,8 @@ fn run_history(series: Series, evs: Vec<Ev>, cnt: Option<&Counters>) -> HistOut 
             match series {
                 Series::S1Shared => Box::pin(s1::scenario(false, evs)),
                 Series::S1Owned => Box::pin(s1::scenario(true, evs)),
-                Series::S2 => Box::pin(s2::scenario(evs)),
+                Series::S2 => Box::pin(s2::scenario(evs, false)),
+                Series::S2Settled => Box::pin(s2::scenario(evs, true)),
                 Series::S3 => Box::pin(s3::scenario(evs)),
             }
         })
@@ -114,10 +115,12 @@ fn depths_for(ctx: &Ctx, s: Series) -> (usize, usize) {
         (true, Series::S1Shared) => (5, 5),
         (true, Series::S1Owned) => (4, 4),
         (true, Series::S2) => (4, 4),
+        (true, Series::S2Settled) => (4, 4),
         (true, Series::S3) => (4, 4),
         (false, Series::S1Shared) => (5, 7),
         (false, Series::S1Owned) => (5, 7),
         (false, Series::S2) => (5, 7),
+        (false, Series::S2Settled) => (5, 6),
         (false, Series::S3) => (5, 6),
     }
 }
@@ -141,7 +144,7 @@ pub fn run(ctx: &Ctx) -> Outcome {
     // signature -> (shortest history, detail, trace, series, count)
     let mut found: BTreeMap<String, (Vec<usize>, String, Vec<String>, Series, u64)> = BTreeMap::new();
     // budget shares: the race exploration gets what is left after the four history searches
-    let shares = [0.3, 0.25, 0.25, 0.1];
+    let shares = [0.25, 0.2, 0.2, 0.1, 0.15];
     for (si, series) in ALL_SERIES.iter().copied().enumerate() {
         let (d0, d1) = depths_for(ctx, series);
         let share: f64 = shares[..=si].iter().sum();
